@@ -49,7 +49,8 @@ def make_input(rng, lang, stats, marker="comment"):
         rendered.pop()
     # keep multi-line tokens intact: only split at lines that do not sit inside a comment / continuation
     safe = [i for i in range(len(rendered) + 1)
-            if (i == 0 or not rendered[i - 1].rstrip().endswith("\\")) and not _inside_block_comment(rendered, i)]
+            if (i == 0 or not rendered[i - 1].rstrip().endswith("\\")) and not _inside_block_comment(rendered, i)
+            and not _inside_raw_string(rendered, i)]
     pos = rng.choice(safe)
     body = body_lines(rng, rng.randrange(1, 8))
     if marker == "comment":
@@ -63,6 +64,12 @@ def make_input(rng, lang, stats, marker="comment"):
     reg = [ind + off] + body + ([] if unterminated else [rng.choice(["", "  ", "\t"]) + on])
     text = "\n".join(rendered[:pos] + reg + (rendered[pos:] if not unterminated else [])) + "\n"
     return text, body, (off, on), pos, unterminated
+
+
+def _inside_raw_string(lines, i):
+    """the generator writes multi-line raw strings as R"( ... )": markers placed inside one are text of the literal, not a region"""
+    txt = "\n".join(lines[:i])
+    return txt.rfind('R"(') > txt.rfind(')"')
 
 
 def _inside_block_comment(lines, i):
